@@ -1,1 +1,6 @@
 import ThriftVerif.Props.C02
+#print axioms Props.C02.wire_roundtrip
+#print axioms Props.C02.write_wellformed
+#print axioms Props.C02.read_write_roundtrip
+#print axioms Props.C02.union_write_refuses
+#print axioms Props.C02.presentation_options_irrelevant
